@@ -66,32 +66,59 @@ class Lock:
 
 # ----------------------------------------------------------------------------- rust
 
+def _rust_src_hash() -> str:
+    h = hashlib.sha256()
+    root = REPO / "rust"
+    files = sorted(list((root / "src").rglob("*.rs")) + [root / "Cargo.toml", root / "Cargo.lock"])
+    for f in files:
+        if f.exists():
+            h.update(str(f.relative_to(root)).encode())
+            h.update(b"\0")
+            h.update(f.read_bytes())
+            h.update(b"\0")
+    return h.hexdigest()[:20]
+
+
 def build_rust() -> str:
-    """cargo build the extension from /repo/rust as it is now; returns path of the .so.
-    A compile error is an infrastructure failure."""
+    """Build the compiled extension from /repo/rust *as it is now*; returns the path of the .so.
+    The result is cached by the content hash of the Rust sources (cargo's own mtime-based freshness
+    check is not trusted: the sources are copied to a scratch directory with fresh mtimes and built
+    there, sharing only the dependency cache). A compile error is an infrastructure failure."""
+    import shutil
     target = CACHE / "rust"
-    env = dict(os.environ, PYO3_PYTHON=PY, CARGO_TARGET_DIR=str(target), CARGO_NET_OFFLINE="true")
+    sodir = CACHE / "so"
     with Lock("rust"):
-        p = subprocess.run(
-            ["cargo", "build", "--release", "--offline", "--manifest-path", str(REPO / "rust" / "Cargo.toml")],
-            env=env, capture_output=True, text=True)
-        if p.returncode != 0:
-            raise Infra("cargo build failed:\n" + p.stderr[-3000:])
-        so = target / "release" / "lib_pendulum.so"
-        if not so.exists():
-            raise Infra("lib_pendulum.so missing after cargo build")
-        # private copy so that a concurrent rebuild cannot swap the file under a running worker
-        data = so.read_bytes()
-        h = hashlib.sha256(data).hexdigest()[:16]
-        dst = CACHE / "so" / f"_pendulum_{h}.so"
-        dst.parent.mkdir(exist_ok=True)
-        if not dst.exists():
+        sodir.mkdir(parents=True, exist_ok=True)
+        h = _rust_src_hash()
+        dst = sodir / f"_pendulum_{h}.so"
+        if dst.exists():
+            os.utime(dst)
+            return str(dst)
+        scratch = CACHE / "rustsrc" / h
+        if scratch.exists():
+            shutil.rmtree(scratch)
+        scratch.parent.mkdir(parents=True, exist_ok=True)
+        shutil.copytree(REPO / "rust", scratch, ignore=shutil.ignore_patterns("target"))
+        for f in scratch.rglob("*"):
+            if f.is_file():
+                os.utime(f)
+        env = dict(os.environ, PYO3_PYTHON=PY, CARGO_TARGET_DIR=str(target), CARGO_NET_OFFLINE="true")
+        try:
+            p = subprocess.run(
+                ["cargo", "build", "--release", "--offline", "--manifest-path", str(scratch / "Cargo.toml")],
+                env=env, capture_output=True, text=True)
+            if p.returncode != 0:
+                raise Infra("cargo build failed:\n" + p.stderr[-3000:])
+            so = target / "release" / "lib_pendulum.so"
+            if not so.exists():
+                raise Infra("lib_pendulum.so missing after cargo build")
             tmp = dst.with_suffix(".tmp%d" % os.getpid())
-            tmp.write_bytes(data)
+            shutil.copyfile(so, tmp)
             os.replace(tmp, dst)
-        # keep only the 4 most recent copies
-        olds = sorted(dst.parent.glob("_pendulum_*.so"), key=lambda q: q.stat().st_mtime)
-        for q in olds[:-4]:
+        finally:
+            shutil.rmtree(scratch, ignore_errors=True)
+        olds = sorted(sodir.glob("_pendulum_*.so"), key=lambda q: q.stat().st_mtime)
+        for q in olds[:-6]:
             if q != dst:
                 try:
                     q.unlink()
